@@ -292,8 +292,20 @@ def run_case(item):
                     new += t.sympy * (rng.choice([2, 3, Rational(1, 2), Rational(3, 2), -1]) if q in picks else 1)
                 ex = Expr(new, **ex.assumptions)
                 res["mixed"] = True
+            rng2 = random.Random(sd * 48271 + 11)
+            if kind == "long" and len(T) >= 2 and rng2.random() < 0.35:
+                # orbital-energy numerators that differ from term to term (+e_x on some, -e_y on the
+                # others): the terms then no longer combine to the intermediate with one common remainder
+                from adcgen.sympy_objects import NonSymmetricTensor
+                x_, y_ = rng2.sample(T, 2)
+                new = S.Zero
+                for t in ex.terms:
+                    new += t.sympy * (NonSymmetricTensor("e", (x_,)) if rng2.random() < 0.5
+                                      else -NonSymmetricTensor("e", (y_,)))
+                ex = Expr(new, **ex.assumptions)
+                res["numerators"] = True
             out = factor_intermediates(ex.copy(), names, mo)
-            res["op"] = f"factor_intermediates(expanded{' with rescaled terms' if res.get('mixed') else ''}, {names}, max_order={mo})"
+            res["op"] = f"factor_intermediates(expanded{' with rescaled terms' if res.get('mixed') else ''}{' and term-wise orbital-energy numerators' if res.get('numerators') else ''}, {names}, max_order={mo})"
             res["in"] = str(ex)[:400]
             A = ex.sympy
         elif op == "reduce":
